@@ -425,6 +425,10 @@ class AnnotateModel:
             kind = ev[0]
             if kind == "cond":
                 c, o = ev[1], ev[2]
+                # `X != c` taken with outcome o is `X == c` with outcome not o: one spelling for the rules that read the conditions
+                if isinstance(c, ast.Compare) and len(c.ops) == 1 and isinstance(c.ops[0], ast.NotEq):
+                    c = ast.copy_location(ast.Compare(left=c.left, ops=[ast.Eq()], comparators=list(c.comparators)), c)
+                    o = not o
                 rec.conds.append((norm(c), o))
                 pt_ = presence_test(c, o)
                 if pt_:
